@@ -71,6 +71,7 @@ fn main() {
         "c05" => c05::run(&cases, &out, &tier, seed),
         "dbg07" => c07::dbg(seed),
         "c07" => c07::run(&cases, &out, &tier, seed),
+        "dbg08" => c08::dbg(seed),
         "c08" => c08::run(&cases, &out, &tier, seed),
         "c15" => c15::run(&cases, &out, &tier, seed),
         "c19w" => c19::worker(&cases, &out, &tier, seed, arg(&args, "--start", "0").parse().unwrap_or(0)),
